@@ -81,6 +81,11 @@ func (s *store) Get(r *http.Request, k string) ([]byte, error) {
 	case "get-error":
 		s.fired["store-get-error"]++
 		return nil, errors.New("session store unavailable")
+	case "get-error-stale":
+		// the store reports a failure (session revoked, backend down) and hands back what it still
+		// has in its buffer: the error is what counts
+		s.fired["store-get-error"]++
+		return x.val, errors.New("session revoked")
 	case "lost":
 		s.fired["store-value-lost"]++
 		return nil, nil
@@ -454,6 +459,10 @@ func buildToken(rq Req, tr *world.Truth, rng *core.Rng, s time.Time) []byte {
 		return rk.NegTokenInit([][]int{rk.OIDKRB5}, nil)
 	case "resp":
 		return rk.NegTokenResp(1, rk.OIDKRB5, mech)
+	case "resp-notoken-completed":
+		return rk.NegTokenResp(0, rk.OIDKRB5, nil) // the service's own accept-completed answer echoed back
+	case "resp-notoken-incomplete":
+		return rk.NegTokenResp(1, rk.OIDKRB5, nil)
 	case "resp-nomech":
 		return rk.NegTokenResp(1, nil, mech)
 	case "resp-foreign":
